@@ -405,16 +405,16 @@ func (e *Engine) noteWrite(st *State, key string, addr *Term) {
 
 // lval is an assignable location.
 type lval struct {
-	v     *types.Var // local (non-boxed) variable, possibly with a field path / array index
-	path  []string   // struct field path inside the local
-	aidx  *Term      // index into a local fixed array (after path)
-	key   string     // heap cell key ("" = by type)
-	addr  *Term      // heap address
-	t     types.Type
-	blank bool
-	gvar  string // ghost variable name
-	raw   bool   // element of a slice of invariant-bearing structs (or reached through a raw pointer)
-	rawC  *Term  // condition under which the access is raw (nil = always)
+	v      *types.Var // local (non-boxed) variable, possibly with a field path / array index
+	path   []string   // struct field path inside the local
+	aidx   *Term      // index into a local fixed array (after path)
+	key    string     // heap cell key ("" = by type)
+	addr   *Term      // heap address
+	t      types.Type
+	blank  bool
+	gvar   string     // ghost variable name
+	raw    bool       // element of a slice of invariant-bearing structs (or reached through a raw pointer)
+	rawC   *Term      // condition under which the access is raw (nil = always)
 	elemOf types.Type // set when the location is a slice element: the element type
 }
 
